@@ -14,6 +14,7 @@ import (
 	"encoding/hex"
 	"errors"
 	"fmt"
+	"io"
 	"os"
 	"path/filepath"
 	"strings"
@@ -125,7 +126,7 @@ func classify(err error) int {
 		return 7
 	case has("signature wrapper not found"):
 		return 8
-	case has("not enough hash slots"), has("expected 1 hash slot"), has("expected code size"):
+	case has("not enough hash slots"), has("expected 1 hash slot"), has("expected code size"), has("invalid code limit"):
 		return 10
 	case has("requirements blob must be"):
 		return 11
@@ -357,14 +358,8 @@ func realVerifyBlob(blob []byte, info, res, rep []byte, file []byte) (vr verifyR
 		if d := csblob.VerifBestDir(v.Blob); d != nil {
 			vr.Best = int64(d.IType)
 		}
-		n := vr.Size
-		if n > int64(len(file)) {
-			n = int64(len(file))
-		}
-		if n < 0 {
-			n = 0
-		}
-		perr := guard(func() error { return v.Blob.VerifyPages(bytes.NewReader(file[:n])) })
+		// exactly the reader machos.Verify hands over
+		perr := guard(func() error { return v.Blob.VerifyPages(io.NewSectionReader(bytes.NewReader(file), 0, vr.Size)) })
 		vr.Pages = classify(perr)
 		if perr != nil {
 			vr.Err = "pages: " + perr.Error()
